@@ -3202,4 +3202,125 @@ example : signedRow [45] = none ∧ specInt [45] = none ∧ signedRow [45, 55] =
 example : 2 ≤ (linesOf [62,97,10,65,10,62,98,10,67,10,62,99,10]).length := by decide
 example : crlfText (linesOf [99,9,49,13,10,100,9,50,50,10]) = true := by decide
 
+
+/-! ### round 4: GTF attribute scan, digit-matrix acceptance -/
+
+theorem gtfScan_cons (key : Bytes) (fuel : Nat) (prev : Bool) (b : Nat) (t : Bytes) :
+    gtfScan key (fuel + 1) prev (b :: t) =
+      (if !prev && (b :: t).take (key ++ [32, 34]).length == key ++ [32, 34] then
+        (if (((b :: t).drop (key ++ [32, 34]).length).takeWhile (· != 34)).length < ((b :: t).drop (key ++ [32, 34]).length).length then
+          (((b :: t).drop (key ++ [32, 34]).length).takeWhile (· != 34)) ::
+            gtfScan key fuel false (((b :: t).drop (key ++ [32, 34]).length).drop
+              ((((b :: t).drop (key ++ [32, 34]).length).takeWhile (· != 34)).length + 1))
+        else gtfScan key fuel (isWordByte b) t)
+      else gtfScan key fuel (isWordByte b) t) := by
+  rw [gtfScan]
+
+/-- **gtfScan_value.** At a position where `key "` starts a word and the value is closed by a quote, the scan
+yields that value (up to the first closing quote) and goes on right after the quote. -/
+theorem gtfScan_value (key v rest : Bytes) (fuel : Nat) (hv : 34 ∉ v) (hk : key ≠ []) :
+    gtfScan key (fuel + 1) false (key ++ [32, 34] ++ v ++ 34 :: rest) = v :: gtfScan key fuel false rest := by
+  obtain ⟨b, t, hbt⟩ : ∃ b t, key ++ [32, 34] ++ v ++ 34 :: rest = b :: t := by
+    cases key with
+    | nil => exact absurd rfl hk
+    | cons x xs => exact ⟨x, _, rfl⟩
+  rw [hbt, gtfScan_cons, ← hbt]
+  have hpat : (key ++ [32, 34] ++ v ++ 34 :: rest).take (key ++ [32, 34]).length = key ++ [32, 34] := by
+    rw [List.append_assoc, List.take_left]
+  have hdrop : (key ++ [32, 34] ++ v ++ 34 :: rest).drop (key ++ [32, 34]).length = v ++ 34 :: rest := by
+    rw [List.append_assoc, List.drop_left]
+  have htw : (v ++ 34 :: rest).takeWhile (· != 34) = v := by
+    apply takeWhile_append_stop
+    · intro x hx
+      have : x ≠ 34 := fun h => hv (h ▸ hx)
+      simp [this]
+    · simp
+  have hlt : v.length < (v ++ 34 :: rest).length := by
+    rw [List.length_append, List.length_cons]; omega
+  have hdrop2 : (v ++ 34 :: rest).drop (v.length + 1) = rest := by
+    have : v ++ 34 :: rest = (v ++ [34]) ++ rest := by simp
+    rw [this]
+    have hl : v.length + 1 = (v ++ [34]).length := by simp
+    rw [hl, List.drop_left]
+  rw [hpat, hdrop, htw]
+  simp only [Bool.not_false, Bool.true_and, beq_self_eq_true, if_true, hlt, hdrop2]
+
+/-- **gtfScan_skip.** Where the pattern does not start (or the previous byte is a word character: the key would
+only be the tail of a longer key), the scan moves on by one byte. -/
+theorem gtfScan_skip (key : Bytes) (fuel : Nat) (prev : Bool) (b : Nat) (t : Bytes)
+    (h : prev = true ∨ (b :: t).take (key ++ [32, 34]).length ≠ key ++ [32, 34]) :
+    gtfScan key (fuel + 1) prev (b :: t) = gtfScan key fuel (isWordByte b) t := by
+  rw [gtfScan_cons]
+  rcases h with h | h
+  · simp [h]
+  · have : ((b :: t).take (key ++ [32, 34]).length == key ++ [32, 34]) = false := by simpa using h
+    rw [this, Bool.and_false]
+    rfl
+
+/-- the repaired rule on the text `ref_gene_id "R"; gene_id "G";`: only the attribute whose key is `gene_id` -/
+theorem gtfKeySuffix_example :
+    gtfAttr [103,101,110,101,95,105,100]
+      [[114,101,102,95,103,101,110,101,95,105,100,32,34,82,34,59,32,103,101,110,101,95,105,100,32,34,71,34,59]]
+      = [[71]] := by decide
+
+/-- **digitMatrixValues_ok_iff.** The digit-matrix path accepts a column exactly when every field consists of
+digits only (for fields inside the buffer); otherwise it reports a format error. -/
+theorem digitMatrixValues_ok_iff (data : Bytes) (fs : List (Nat × Nat))
+    (hwf : ∀ p ∈ fs, p.1 ≤ p.2 ∧ p.2 ≤ data.length) :
+    (∃ vs, digitMatrixValues data fs = .ok vs) ↔ ∀ p ∈ fs, (slice data p.1 p.2).all isDigit = true := by
+  constructor
+  · rintro ⟨vs, hvs⟩ p hp
+    unfold digitMatrixValues at hvs
+    simp only at hvs
+    split at hvs
+    · simp at hvs
+    · rename_i hbad
+      unfold firstBadRow at hbad
+      simp only at hbad
+      split at hbad
+      · simp at hbad
+      · rename_i hge
+        have hlen : (digitMatrix data fs).findIdx (fun r => !r.all isDigit) = (digitMatrix data fs).length := by
+          have := List.findIdx_le_length (p := fun r : Bytes => !r.all isDigit) (xs := digitMatrix data fs)
+          omega
+        have hall := List.findIdx_eq_length.mp hlen
+        have hrow := hall (digitRow data (maxWidth fs) p) (by
+          unfold digitMatrix; exact List.mem_map.mpr ⟨p, hp, rfl⟩)
+        have hrow' : (digitRow data (maxWidth fs) p).all isDigit = true := by simpa using hrow
+        rw [digitRow_eq data _ p (hwf p hp) (le_maxWidth fs p hp), List.all_append] at hrow'
+        simp only [Bool.and_eq_true] at hrow'
+        exact hrow'.2
+  · intro h
+    exact ⟨_, digitMatrix_value data fs hwf h⟩
+
+
+/-- the attribute scan before repair d6d4b59: `key "` is matched anywhere, also at the end of a longer key -/
+def gtfScanOld (key : Bytes) : Nat → Bytes → List Bytes
+  | 0, _ => []
+  | _, [] => []
+  | fuel + 1, b :: t =>
+    let pat := key ++ [32, 34]
+    if (b :: t).take pat.length == pat then
+      let rest := (b :: t).drop pat.length
+      let v := rest.takeWhile (· != 34)
+      if v.length < rest.length then v :: gtfScanOld key fuel (rest.drop (v.length + 1))
+      else gtfScanOld key fuel t
+    else gtfScanOld key fuel t
+
+/-- **gtfKeyOld_unsound.** On `ref_gene_id "R"; gene_id "G";` the old scan reports two `gene_id` values, the first
+of which belongs to `ref_gene_id`; the repaired scan (`gtfKeySuffix_example`) reports `G` only. -/
+theorem gtfKeyOld_unsound :
+    gtfScanOld [103,101,110,101,95,105,100] 30
+      [114,101,102,95,103,101,110,101,95,105,100,32,34,82,34,59,32,103,101,110,101,95,105,100,32,34,71,34,59]
+      = [[82], [71]] := by decide
+
+-- gtfScan_value: key `a`, value `x`, nothing after; gtfScan_skip: previous byte is a word byte;
+-- digitMatrixValues_ok_iff: one two-digit field
+example : gtfScan [97] 1 false ([97] ++ [32, 34] ++ [120] ++ 34 :: []) = [120] :: gtfScan [97] 0 false [] :=
+  gtfScan_value [97] [120] [] 0 (by decide) (by decide)
+example : gtfScan [97] 5 true [97, 32, 34, 120, 34] = gtfScan [97] 4 (isWordByte 97) [32, 34, 120, 34] :=
+  gtfScan_skip [97] 4 true 97 _ (Or.inl rfl)
+example : ∃ vs, digitMatrixValues [52, 50, 9] [(0, 2)] = .ok vs :=
+  (digitMatrixValues_ok_iff [52, 50, 9] [(0, 2)] (by decide)).mpr (by decide)
+
 end C02
